@@ -21,7 +21,7 @@ RULE = (
     "preconditioning option set, namespace in {numpy, torch}, width, N in [6,28], proposal leak, seeds. For each configuration: "
     "reference run R0 with file checkpointing; then for EVERY likelihood-call index k the run is repeated with an exception raised "
     "at call k, the last checkpoint written is taken and the run is resumed - as bytes, as dict, as file path, through "
-    "Aspire.resume_from_file, as the state object the interrupted sampler still holds, and as a plain .pkl file holding the payload (quick tier: one route per k, cycling; thorough: all six) - with the same arguments and freshly built "
+    "Aspire.resume_from_file, as the state object the interrupted sampler still holds, as a plain .pkl file holding the payload, and as a dictionary that an earlier, itself interrupted, attempt to resume had already been given (quick tier: one route per k, cycling; thorough: all seven) - with the same arguments and freshly built "
     "generators of the same seed; every checkpoint of R0 is also resumed directly. Oracle: the resumed run equals R0 bitwise: "
     "history.beta, every stored population (all fields), final x / log L / log pi, log_evidence, log_evidence_error and every "
     "diagnostic series; a crash before the first checkpoint resumes from scratch through resume_from_file and again equals R0. "
@@ -33,7 +33,7 @@ ASSUMPTIONS = [
     "the user's callables are deterministic",
     "runs that raise the documented 'contains NaN values' ValueError are skipped",
 ]
-ROUTES = ["bytes", "dict", "path", "resume_from_file", "live-dict", "pkl-path"]
+ROUTES = ["bytes", "dict", "path", "resume_from_file", "live-dict", "pkl-path", "dict-twice"]
 
 
 def cases(tier):
@@ -53,9 +53,20 @@ def _resume(case, route, blob, path):
             A = Aspire.resume_from_file(path, log_likelihood=P.log_likelihood, log_prior=P.log_prior)
             kw = P.sample_kwargs(None, None, None)
             return A.sample_posterior(**kw)
-        src = {"bytes": blob, "dict": None, "path": str(path), "live-dict": blob, "pkl-path": None}[route]
+        src = {"bytes": blob, "dict": None, "path": str(path), "live-dict": blob, "pkl-path": None, "dict-twice": None}[route]
         if route == "dict":
             src = pickle.loads(blob)
+        elif route == "dict-twice":
+            # the user keeps the checkpoint dictionary; a first attempt to resume from it is interrupted at its second likelihood
+            # call (or completes, if it has fewer); the run is then resumed again from the very same dictionary object
+            src = pickle.loads(blob)
+            P1 = cc.CkptProblem(case, fault=("likelihood", 1))
+            try:
+                P1.aspire.sample_posterior(**P1.sample_kwargs(None, src, None))
+            except InjectedFault:
+                pass
+            minipcn.reset()
+            minipcn.step_budget = 400
         elif route == "pkl-path":  # the payload written to a plain pickle file by the user, resumed by file name
             src = str(path) + ".ckpt.pkl"
             with open(src, "wb") as fh:
@@ -139,7 +150,7 @@ def run_case(case, ctx):
             if blob is None:
                 routes = ["resume_from_file"]
             else:
-                routes = ROUTES if tier_all else [ROUTES[k % 6]]
+                routes = ROUTES if tier_all else [ROUTES[k % len(ROUTES)]]
                 if 0 < completed < n_it or (completed == n_it and len(logk.writes) < len(log0.writes)):
                     keys.append({"case": case, "k": k})
             for route in routes:
